@@ -113,9 +113,11 @@ def u_seed(ctx):
     pyr = _Rec("py_random", log, {k_: _draw(k_) for k_ in ("randint", "getrandbits", "randrange", "random")})
     npx = _Rec("numpy", log)
     gpx = _Rec("global_prng", log)
+    import pybrops.core.random.prng as _prng_mod
     f = loopcut.Extracted(PRNG + ":seed", overrides={"py_random": pyr, "numpy": npx, "global_prng": gpx})
     try:
-        f(tok)
+        with loopcut.patched_globals(_prng_mod, py_random=pyr, numpy=npx, global_prng=gpx):     # helpers of the module see the stand-ins too
+            f(tok)
     except Exception as ex_:       # the function left the recorded protocol in a way the proxies cannot follow
         log.append(("raised %r" % (ex_,), (), ()))
     names = [c[0] for c in log]
@@ -143,8 +145,9 @@ def u_seed(ctx):
         return ("BitGenerator", seed)
     g = loopcut.Extracted(PRNG + ":spawn", overrides={"py_random": pyr2, "Generator": Gen, "PCG64": BG})
     try:
-        one = g(None, BG, 64)
-        many = g(3, BG, 64)
+        with loopcut.patched_globals(_prng_mod, py_random=pyr2, Generator=Gen, PCG64=BG):
+            one = g(None, BG, 64)
+            many = g(3, BG, 64)
     except Exception as ex_:
         one, many = None, None
         log2.append(("raised %r" % (ex_,), (), ()))
